@@ -47,6 +47,11 @@ pub fn adj_for_ext_lat(
             .map(|x| (*x.0, RefCell::new(x.1.map(PrayerHour::new)))),
     );
 
+    // A Fajr/Isha that the method defines by an interval does not depend on its twilight angle:
+    // derive it first, so that the policies below see it (and not the unused angle-based value)
+    // when they decide what is missing.
+    adj_for_int(params, &hours);
+
     if can_adj(&hours, params.extreme_latitude_method) {
         match params.extreme_latitude_method {
             AngleBased => angle_based(params, &hours),
